@@ -335,7 +335,7 @@ func (u *Unit) topPanic(st *State, fr *Frame, v Term, site ssa.Instruction) {
 			}
 		}
 	}
-	if !hasPanicClause {
+	if !hasPanicClause && !st.PanicFromCallee {
 		ord := u.siteOrdinal(site, "panic")
 		u.Prove(st.Clone(), u.obligName("panic", fmt.Sprintf("unreachable#%d", ord)), "panic", u.tagsOr(nil), posOf(site), "explicit panic is unreachable", False, nil)
 	}
